@@ -69,6 +69,13 @@ class Sym:
         self.terms = st
 
 
+def freeze(x):
+    """Lists (mutable input values) -> tuples, recursively."""
+    if isinstance(x, list):
+        return tuple(freeze(y) for y in x)
+    return x
+
+
 def seed_tuple(seed) -> tuple:
     import numpy as np
 
@@ -85,7 +92,8 @@ class StubDist:
     def log_prob(self, at):
         self.prog.calls[("d", self.j)] = self.prog.calls.get(("d", self.j), 0) + 1
         self.prog.order.append(("d", self.j))
-        key = ("d", self.j, self.params, at) if self.seed is None else ("d", self.j, self.params, at, self.seed)
+        params, at = tuple(freeze(p) for p in self.params), freeze(at)
+        key = ("d", self.j, params, at) if self.seed is None else ("d", self.j, params, at, self.seed)
         return Sym((key,))
 
 
@@ -108,11 +116,12 @@ class Built:
         for i, it in enumerate(self.items):
             k = it["kind"]
             name = f"x{i}" if it.get("named", True) else ""
+            init = list(self.val(0)) if it.get("mutable") else self.val(0)
             if k == "value":
-                n = lsl.Value(self.val(0), _name=name)
+                n = lsl.Value(init, _name=name)
                 self.objs.append(n), self.out.append(n), self.cache_node.append(None)
             elif k == "var":
-                v = lsl.Var(self.val(0), name=name)
+                v = lsl.Var(lsl.Value(init), name=name) if it.get("mutable") else lsl.Var(init, name=name)
                 self.objs.append(v), self.out.append(v.var_value_node), self.cache_node.append(None)
             elif k in ("calc", "tcalc", "wvar"):
                 cls = lsl.TransientCalc if k == "tcalc" else lsl.Calc
@@ -203,7 +212,7 @@ class Built:
         def f(*args, seed=None, **kw):
             prog.calls[("c", i)] = prog.calls.get(("c", i), 0) + 1
             prog.order.append(("c", i))
-            args = args + tuple(v for _, v in sorted(kw.items()))
+            args = tuple(freeze(a) for a in args) + tuple(freeze(v) for _, v in sorted(kw.items()))
             return ("c", i, args) if seed is None else ("c", i, args, seed_tuple(seed))
 
         f.__name__ = f"f{i}"
